@@ -1109,7 +1109,7 @@ func c08Extension(r *run.Run) {
 					st, typ, _ = c08Scaled(7, 5400)
 					desc = append(desc, "GPOS 1.2")
 				default:
-					st, typ, _ = c08Scaled(8, 4000)
+					st, typ, _ = c08Scaled(8, 8500) // 8500 pairs: 34 KiB
 					desc = append(desc, "GPOS 2.1")
 				}
 				ll = append(ll, gen.MakeLookup(typ, gen.Flags[i%2*4], []gtab.Subtable{st}))
